@@ -375,7 +375,7 @@ def run(ctx):
     batch(text, "random")
 
     ctx.notes["exploration"] = stats_all[:40]
-    if not proofs_ok or not all_ok or any(k in ("tie-A", "correspondence") for k, _, _ in ctx.broken):
+    if (not proofs_ok or not all_ok or any(k in ("tie-A", "correspondence") for k, _, _ in ctx.broken)) and not ctx.violations:
         # something no longer checks: look for a failing schedule with the monitors alone, enlarged scopes
         ctx.log("searching for a failing schedule with the monitors alone")
         found = len(ctx.violations)
